@@ -254,6 +254,7 @@ func RunRT(cfg vsched.Config, sc *RTScn) *RTResult {
 			tmp := &Scn{Variant: "sack", SynAck: &simnet.SynAckSpec{Enabled: false}}
 			p, err := Listen(n, tmp)
 			if err == nil {
+				n.Listeners[len(n.Listeners)-1].Expect = -1
 				out.ListenPort = p
 				if sc.UseListenerPort || sc.Port == 0 {
 					port = int(p)
